@@ -35,6 +35,13 @@ MirrorOK(rec) ==
   /\ Clause("consumer_lookups_agree", rec.cpost.agree)
   /\ Clause("consumer_refs", rec.cpost.refall)
 
+\* read-only requests served between two commits are stuttering steps: the provider MDIB, its lookups included, is
+\* what it was (C11: a lookup hands out what the table stores; a handler that works on it changes the table)
+ReadsOK(rec) ==
+  /\ Clause("reads_are_answered", \A i \in DOMAIN rec.reads : rec.reads[i].exc = "")
+  /\ Clause("reads_change_nothing", \A i \in DOMAIN rec.reads : rec.reads[i].same)
+  /\ Clause("provider_lookups_agree_after_reads", \A i \in DOMAIN rec.reads : rec.reads[i].agree)
+
 StateReports(rec) == {i \in 1..Len(rec.reports) : rec.reports[i].kind # "descr"}
 DescrReports(rec) == {i \in 1..Len(rec.reports) : rec.reports[i].kind = "descr"}
 RepS(rec) == {e.h : e \in {x \in UNION {Rng(rec.reports[i].entries) : i \in StateReports(rec)} : x.k = "S"}}
@@ -143,7 +150,7 @@ TraceInit == /\ tid \in 1..Len(Traces) /\ l = 1
 
 Step(rec) ==
   CASE rec.act = "Commit" /\ rec.res = "ok" ->
-         /\ MirrorOK(rec) /\ NotifiedOK(rec) /\ ReportsOK(txpre, rec)
+         /\ MirrorOK(rec) /\ NotifiedOK(rec) /\ ReportsOK(txpre, rec) /\ ReadsOK(rec)
          /\ txpre' = rec.post
     [] rec.act = "Begin" -> Quiet(rec) /\ txpre' = rec.post
     [] OTHER -> Quiet(rec) /\ txpre' = IF rec.act \in {"Abort", "Commit"} THEN rec.post ELSE txpre
